@@ -83,6 +83,37 @@ def _same_cells(a, b) -> bool:
     return a is b
 
 
+def _pairs(a, b):
+    if isinstance(a, list) and isinstance(b, list) and len(a) == len(b):
+        for x, y in zip(a, b):
+            if isinstance(x, list) or isinstance(y, list):
+                yield from _pairs(x, y)
+            elif x is not y:
+                yield x, y
+    else:
+        yield a, b
+
+
+def _report_store(ctx, before, after, detail) -> bool:
+    """A store was seen (element identity changed).  It is a violation only if the stored value can differ
+    from the old one on this path (an equal value is unobservable); the witness makes it differ."""
+    from .engine import Sym
+
+    if isinstance(before, bytes) or isinstance(after, bytes):
+        ctx.fail("mutated", detail)
+        return True
+    for x, y in _pairs(before, after):
+        sx, sy = Sym.lift(x), Sym.lift(y)
+        if sx is None or sy is None:
+            ctx.fail("mutated", detail)
+            return True
+        z, wit = ctx.is_zero(sx - sy)
+        if not z:
+            ctx.fail("mutated", detail + " (old %s, new %s)" % (sx.pretty()[:30], sy.pretty()[:30]), wit)
+            return True
+    return False
+
+
 def check_unmodified(ctx, args, snaps, what: str = "argument") -> bool:
     ok = True
     for i, (a, s) in enumerate(zip(args, snaps)):
@@ -100,12 +131,12 @@ def check_unmodified(ctx, args, snaps, what: str = "argument") -> bool:
         if s.kind == "poly":
             for k in s.keys:
                 if not _same_cells(s.cells[k], now.cells[k]):
-                    ctx.fail("mutated", "%s %d: coefficient column %r was written" % (what, i, [ord(c) - 59 for c in k]))
-                    ok = False
-                    break
+                    if _report_store(ctx, s.cells[k], now.cells[k], "%s %d: coefficient column %r was written" % (what, i, [ord(c) - 59 for c in k])):
+                        ok = False
+                        break
         elif not _same_cells(s.cells, now.cells):
-            ctx.fail("mutated", "%s %d: array contents were written" % (what, i))
-            ok = False
+            if _report_store(ctx, s.cells, now.cells, "%s %d: array contents were written" % (what, i)):
+                ok = False
     return ok
 
 
